@@ -178,12 +178,12 @@ PLAN["C15"] = {
 SERDE_STUBS = ["alloc::fmt::format -> empty String (error-message construction on serde error paths)", "hashbrown -> /verif/models/hashbrown (E2) where a table is involved", "fnv -> constant hasher", "serde data format -> the harness token back end (/verif/harness/serde_backend.rs): structs are written as plain sequences (field-name dispatch not exercised)"]
 
 PLAN["C06"] = {
-    "quick": ["serrt_q_", "allocrt_q_", "identde_q_"],
-    "thorough": ["serrt_t_", "allocrt_t_", "identde_t_"],
+    "quick": ["serrt_q_", "allocde_q_", "identde_q_"],
+    "thorough": ["serrt_t_", "allocde_t_", "identde_t_"],
     "bounds": {"quick": "archetype round trip: <=2 rows x <=3 columns, both encodings; allocator: 2 slots", "thorough": "archetype: 4-component registry with an absent component, empty archetype, empty component set; allocator: <=4 slots, free list <=2"},
-    "outside": ["whole-World round trip (Archetypes/World Serialize+Deserialize glue, resources)", "worlds larger than the shapes", "the column-wise decoder with a zero-sized column (does not fit in 20 GB)", "field-name (map) form of struct encodings", "serde data formats themselves"],
+    "outside": ["whole-World round trip (Archetypes/World Serialize+Deserialize glue, resources)", "Allocator::serialize -> DeserializeAllocator round trip (does not finish in 900 s even for 2 slots; from_serialized_parts is checked on arbitrary input instead)", "worlds larger than the shapes", "the column-wise decoder with a zero-sized column (does not fit in 20 GB)", "field-name (map) form of struct encodings", "serde data formats themselves"],
     "stubs": SERDE_STUBS,
-    "level_text": "Bounded model checking of brood's real Serialize and Deserialize impls against each other over a token back end: archetype (row-wise and column-wise) and identifier round trips reproduce identifiers and values row by row with independent ownership (ledger); the allocator round trip compares equal (real PartialEq), keeps free-list order and both sides issue the same next identifier.",
+    "level_text": "Bounded model checking of brood's real Serialize and Deserialize impls against each other over a token back end: archetype (row-wise and column-wise) and identifier round trips reproduce identifiers and values row by row with independent ownership (ledger); Allocator::from_serialized_parts rebuilds exactly the slot table the given free list and stored identifiers describe (free-list order and generations of freed slots preserved).",
     "level_note": KANI_NOTE + ARCH_NOTE,
     "timeout": {"quick": 900, "thorough": 3600},
 }
